@@ -241,7 +241,8 @@ def run(ctx, scale=1):
     # and it must read the same in every position
     SUBQ = ["select a1 from u2", "select a1 from u2 order by a1 limit 1", "select a1 from u2 where b3 = 4 order by a1 desc limit 5 offset 2",
             "select a1 from u2 union select c3 from v4 order by 1 limit 3", "select max(a1) from u2 group by b3 having count(*) > 1 order by 1",
-            "select a1 from u2 order by a1 fetch first 2 rows only"]
+            "select a1 from u2 order by a1 fetch first 2 rows only", "with w6 as (select 7 as k8) select k8 from w6",
+            "with w6 as (select 7 as k8), x9 as (select k8 from w6) select k8 from x9 order by 1 limit 2"]
     FORMS = ["{q}", "c5 + {q}", "c5 = {q}", "c5 in {q}", "exists {q}", "coalesce({q}, 0)", "case when c5 then {q} else 1 end"]
     for q in SUBQ:
         for form in FORMS:
@@ -280,6 +281,9 @@ def run(ctx, scale=1):
         if C.cdump(b) != C.cdump(c):
             rep.finding("parens-change-tree:statement", "(%s) -> %s but ((%s)) -> %s" % (q[:80], C.cdump(b)[:150], q[:80], C.cdump(c)[:150]),
                         {"kind": "pair", "position": "statement", "a": "(" + q + ")", "b": "((" + q + "))", "path": []})
+        if C.cdump(a) != C.cdump(b):
+            rep.finding("parens-change-tree:statement", "%s -> %s but (%s) -> %s" % (q[:80], C.cdump(a)[:150], q[:80], C.cdump(b)[:150]),
+                        {"kind": "pair", "position": "statement", "a": q, "b": "(" + q + ")", "path": []})
 
 
 def search(ctx):
